@@ -843,6 +843,8 @@ def seed_jobs():
         (base, "alpha", [], [{"map_to_index": {"by_name": "Foo.labels"}}, {"unfold_boolean": {"by_name": "Foo.labels", "true_as": "on", "false_as": "off"}}]),
         (panels, "dash", [compose], []),
         (panels, "ts", [compose], [{"array_to_append": {"by_builder": "Panel.tags"}}]),
+        # compose into a field that is not an `any`: the type hint lands on a string (unchecked target)
+        (panels, "dash", [{"compose": dict(compose["compose"], composition_map={"Options": "title"})}], []),
         (base, "alpha", [{"add_option": {"by_object": "Foo", "option": {"name": "bare", "arguments": [], "assignments": []}}}],
          [{"unfold_boolean": {"by_name": "Foo.bare", "true_as": "on", "false_as": "off"}}]),
         (base, "alpha", [], [{"disjunction_as_options": {"by_name": "Foo.choice", "argument_index": 1}}]),
@@ -923,3 +925,51 @@ def deep_path_job(rng):
     f = {"language": "all", "package": "deep", "builders": brules, "options": orules}
     f["yaml"] = render_yaml(f)
     return {"schemas": schemas, "language": "go", "via": "yaml" if r.random() < 0.5 else "direct", "files": [f]}
+
+
+# ---------------------------------------------------------------- rules at both levels
+def two_level_job(rng):
+    """common option (or builder) rules, then ONE language-level rule whose effect depends on what the common
+    level did to the same builder: the language-level rule is judged against the state after the common level"""
+    r = rng
+    for _ in range(20):
+        schemas = gen_schemas(r)
+        bs = [b for b in builders_of(schemas) if len(b["opts"]) >= 2]
+        if bs:
+            break
+    else:
+        return gen_job(r)
+    b = r.choice(bs)
+    g = RuleGen(r, schemas)
+    g.bs = [x for x in builders_of(schemas) if x["pkg"] == b["pkg"]]
+    o1, o2 = r.sample(b["opts"], 2)
+    common_opts = []
+    c = r.random()
+    if c < 0.35:
+        common_opts.append({"omit": {"by_builder": b["name"] + "." + o1["name"]}})
+    elif c < 0.7:
+        common_opts.append({"rename": {"by_builder": b["name"] + "." + o1["name"], "as": "heading"}})
+    else:
+        common_opts.append(g.orule(None, b))
+    if r.random() < 0.3:
+        common_opts.append({"add_comments": {"by_builder": b["name"] + "." + o2["name"], "comments": ["common"]}})
+    common_builders = [g.brule(r.choice(["properties", "rename", "initialize"]))] if r.random() < 0.2 else []
+    c = r.random()
+    if c < 0.4:
+        lang_b, lang_o = [{"duplicate": {"by_object": b["obj"], "as": "Copy"}}], []
+    elif c < 0.55:
+        lang_b, lang_o = [{"promote_options_to_constructor": {"by_object": b["obj"], "options": [r.choice(["heading", o1["name"], o2["name"]])]}}], []
+    elif c < 0.65:
+        lang_b, lang_o = [{"omit": {"by_name": b["name"]}}], []
+    elif c < 0.75:
+        lang_b, lang_o = [{"rename": {"by_object": b["obj"], "as": "Renamed"}}], []
+    else:
+        lang_b, lang_o = [], [g.orule(r.choice(["omit", "rename", "duplicate", "add_comments", "rename"]), b,
+                                       r.choice(["heading", o1["name"], o2["name"]]))]
+    files = [{"language": "all", "package": b["pkg"], "builders": common_builders, "options": common_opts},
+             {"language": "go", "package": b["pkg"], "builders": lang_b, "options": lang_o}]
+    if r.random() < 0.3:
+        files.reverse()       # file order does not matter across levels
+    for f in files:
+        f["yaml"] = render_yaml(f)
+    return {"schemas": schemas, "language": "go", "via": "yaml" if r.random() < 0.5 else "direct", "files": files}
